@@ -15,8 +15,28 @@ package transports
 // the registry of transport builders is filled once in init with the three builders and never written afterwards
 //@ func Transports()
 //@   trusted "package-level registry: filled in init with non-nil builders, never written afterwards"
-//@   pure
+//@   opt stable
+//@   noeffect
 //@   ensures forall k string :: maphas(result, k) ==> mapval(result, k) != nil
+// upgrade targets per transport: each call builds its own set (a caller may filter it without affecting other servers or
+// later handshakes); polling upgrades to websocket and webtransport, the others to nothing
+//@ func TransportCtor.UpgradesTo()
+//@   modifies nothing
+//@   ensures result != nil && fresh(result)
+//@ func (*PollingBuilder).UpgradesTo()
+//@   props C06
+//@   modifies nothing
+//@   ensures [C06.builder.polling] result == ret(types.NewSet, 1) && fresh(result)
+//@   callsite types.NewSet#1
+//@     assert [C06.builder.targets] len($keys) == 2 && $keys[0] == "websocket" && $keys[1] == "webtransport"
+//@ func (*WebSocketBuilder).UpgradesTo()
+//@   props C06
+//@   modifies nothing
+//@   ensures [C06.builder.ws] result == ret(types.NewSet, 1) && fresh(result) && len(arg(types.NewSet, 1, keys)) == 0
+//@ func (*WebTransportBuilder).UpgradesTo()
+//@   props C06
+//@   modifies nothing
+//@   ensures [C06.builder.wt] result == ret(types.NewSet, 1) && fresh(result) && len(arg(types.NewSet, 1, keys)) == 0
 //@ func TransportCtor.HandlesUpgrades()
 //@   opt stable
 //@   noeffect
@@ -27,6 +47,7 @@ package transports
 //@ func Transport.Name()
 //@   opt stable
 //@   noeffect
+//@   ensures maphas(Transports(), result)   // (model clause) every transport is built by one of the registered builders and reports that builder's name
 //@ func Transport.HandlesUpgrades()
 //@   opt stable
 //@   noeffect
@@ -148,6 +169,10 @@ package transports
 //@   ensures [C11.pollaccept]  !overlap ==> calls((*types.HttpContext).Write) == 0 && ncalls(Transport.SetWritable, writable) == 1 && emitted(p.Transport, "ready") == 1 && before(Transport.SetWritable, 1, types.EventEmitter.Emit, 1)
 //@   callsite Transport.SetWritable#1
 //@     assert [C11.reqstored] p.req.v == ctx && $writable
+// the listeners of "ready" may already have used the poll (a buffered batch is flushed synchronously): the empty send that
+// carries a pending close goes out only if writability was re-examined after the event and still holds
+//@   callsite (*polling).Send#1
+//@     assert [C12.stillwritable,C01.oneinflight] calls(Transport.Writable) == 1 && ret(Transport.Writable, 1) && before(types.EventEmitter.Emit, 1, Transport.Writable, 1) && p.shouldClose.v != nil
 
 //@ func (*polling).onDataRequest(ctx)
 //@   props C11, C10, C02
@@ -166,5 +191,6 @@ package transports
 //@   callsite Transport.OnData#1
 //@     assert [C10.declared] ctx.request.ContentLength <= p.Transport.$maxbuf
 //@     assert [C10.bounded]  ctx.request.Body == nil || ctx.request.ContentLength >= 0 || (calls(http.MaxBytesReader) == 1 && arg(http.MaxBytesReader, 1, n) == p.Transport.$maxbuf && ret(io.ReaderFrom.ReadFrom, 1, 1) == nil)
+//@     assert [C11.stilloutstanding] p.dataCtx.v == ctx   // the data request stays outstanding while its packets are processed: an overlapping one is refused
 //@     assert [C02.kind] isBinary ==> typeis($data, *types.BytesBuffer)
 //@     assert [C02.kindtext] !isBinary ==> typeis($data, *types.StringBuffer)
